@@ -155,8 +155,11 @@ func (t *Translator) processStreamLine(line string, state *StreamingState, w htt
 		return nil
 	}
 
+	// a delta may carry text and tool calls at once: the text comes first
 	if content, ok := delta["content"].(string); ok && content != "" {
-		return t.handleContentDelta(content, state, w, rc)
+		if err := t.handleContentDelta(content, state, w, rc); err != nil {
+			return err
+		}
 	}
 
 	if toolCalls, ok := delta["tool_calls"].([]interface{}); ok {
